@@ -753,7 +753,18 @@ def execute(cfg, light=False, seed=None):
             task = Opytimizer(space=space, optimizer=opt, function=fn)
             kw = {'store_best_only': bool(cfg.get('store_best_only'))}
             if cfg.get('hook', 'observe') != 'none':
-                kw['pre_evaluation_hook'] = mon.hook
+                # any callable is a hook: a bound method, a functools.partial (no __name__), an instance with __call__
+                hk = int(cfg.get('seed', 0)) % 3
+                if hk == 1:
+                    import functools
+                    kw['pre_evaluation_hook'] = functools.partial(mon.hook)
+                elif hk == 2:
+                    class _CallableHook:
+                        def __call__(self_, o, s_, f):
+                            return mon.hook(o, s_, f)
+                    kw['pre_evaluation_hook'] = _CallableHook()
+                else:
+                    kw['pre_evaluation_hook'] = mon.hook
             hist = task.start(**kw)
         except SoftTimeout:
             et, ev, tb = sys.exc_info()
